@@ -115,8 +115,13 @@ fn tamper(orig: &[u8; B], l: Layout, key: u8, lo: usize, hi: usize, n_auth: usiz
     assert!(ph::packet_encrypted(p0).len() == n_enc, "original: encrypted fields");
     assert!(ph::packet_untrusted(p0).is_empty(), "original: nothing unauthenticated");
 
+    // `t[pos] ^= mask` written so that only bytes of the region [lo, hi) become position
+    // dependent (a write through a symbolic index would make every byte of the image, including
+    // all type/length words, non-constant for the symbolic execution)
     let mut t = *orig;
-    t[pos] ^= mask;
+    assert!(hi - lo <= 52);
+    macro_rules! tam { ($($k:expr),*) => { $( if lo + $k < hi && pos == lo + $k { t[lo + $k] ^= mask; } )* } }
+    tam!(0, 1, 2, 3, 4, 5, 6, 7, 8, 9, 10, 11, 12, 13, 14, 15, 16, 17, 18, 19, 20, 21, 22, 23, 24, 25, 26, 27, 28, 29, 30, 31, 32, 33, 34, 35, 36, 37, 38, 39, 40, 41, 42, 43, 44, 45, 46, 47, 48, 49, 50, 51);
     let r1 = decode(&t[..l.total], &cipher);
 
     let in_a = pos < l.nts || (pos >= l.nonce && pos < l.end);
@@ -174,7 +179,7 @@ fn response(lo: usize, hi: usize) -> u8 {
 macro_rules! tamper_harness {
     ($name:ident, $f:ident, $lo:expr, $hi:expr, [$($code:expr => $msg:expr),*]) => {
         harness! {
-            #[kani::unwind(200)]
+            #[kani::unwind(40)]
             fn $name() {
                 let code = $f($lo, $hi);
                 $( kani::cover!(code == $code, $msg); )*
